@@ -1,6 +1,8 @@
 use crate::engine::{Ctx, DynSub};
 
 pub mod c01;
+pub mod c06;
+pub mod c19;
 
 pub struct Property {
     pub id: &'static str,
@@ -11,6 +13,8 @@ pub struct Property {
 pub fn registry() -> Vec<Property> {
     vec![
         Property { id: "C01", run: c01::run, subs: c01::subs },
+        Property { id: "C06", run: c06::run, subs: c06::subs },
+        Property { id: "C19", run: c19::run, subs: c19::subs },
     ]
 }
 
